@@ -1,2 +1,247 @@
+//! C02: densities / masses are proper and match the stated mean and variance;
+//! C18: distribution objects are a pure function of their current parameters and the RNG seed.
 use crate::*;
-pub fn run(_r: &mut Rng, _o: &mut Fails) {}
+use compute::distributions::*;
+use compute::prelude::*;
+
+/// ln Gamma(x), x > 0 (recurrence + Stirling series; ~1e-13 relative)
+fn lgamma(mut x: f64) -> f64 {
+    let mut acc = 0.0;
+    while x < 15.0 { acc -= x.ln(); x += 1.0; }
+    let z = 1.0 / (x * x);
+    acc + (x - 0.5) * x.ln() - x + 0.5 * (2.0 * std::f64::consts::PI).ln()
+        + (1.0 / 12.0 - z * (1.0 / 360.0 - z * (1.0 / 1260.0 - z * (1.0 / 1680.0 - z / 1188.0)))) / x
+}
+fn gam(x: f64) -> f64 { lgamma(x).exp() }
+
+fn simpson(f: &dyn Fn(f64) -> f64, a: f64, b: f64, n: usize) -> f64 {
+    let h = (b - a) / n as f64;
+    let mut s = f(a) + f(b);
+    for i in 1..n { s += f(a + i as f64 * h) * if i % 2 == 1 { 4.0 } else { 2.0 }; }
+    s * h / 3.0
+}
+
+struct Cont { name: &'static str, params: String, pdf: Box<dyn Fn(f64) -> f64>, refpdf: Box<dyn Fn(f64) -> f64>, mean: f64, var: f64, lo: f64, hi: f64, tmean: Option<f64>, tvar: Option<f64>, pts: Vec<f64>, outside: Vec<f64> }
+
+fn check_cont(c: &Cont, out: &mut Fails) {
+    let fname = format!("{}::pdf", c.name);
+    for &x in &c.pts {
+        let g = catch(|| (c.pdf)(x));
+        let w = (c.refpdf)(x);
+        match g { None => fail(out, &fname, "C02.pdf.no_panic", format!("{} x={}", c.params, x), "panic".into(), format!("{}", w)),
+            Some(g) => if !close(g, w, 1e-9) || g < 0. { fail(out, &fname, "C02.pdf.formula", format!("{} x={}", c.params, x), format!("{}", g), format!("{}", w)) } }
+    }
+    for &x in &c.outside {
+        match catch(|| (c.pdf)(x)) { None => fail(out, &fname, "C02.pdf.support", format!("{} x={}", c.params, x), "panic".into(), "0".into()),
+            Some(g) => if g != 0. { fail(out, &fname, "C02.pdf.support", format!("{} x={}", c.params, x), format!("{}", g), "0".into()) } }
+    }
+    if let Some(tm) = c.tmean { if !close(c.mean, tm, 1e-10) { fail(out, &format!("{}::mean", c.name), "C02.mean", c.params.clone(), format!("{}", c.mean), format!("{}", tm)); } }
+    if let Some(tv) = c.tvar { if !close(c.var, tv, 1e-10) { fail(out, &format!("{}::var", c.name), "C02.var", c.params.clone(), format!("{}", c.var), format!("{}", tv)); } }
+}
+
+pub fn run(rng: &mut Rng, out: &mut Fails) {
+    let pi = std::f64::consts::PI;
+    // ---------------- continuous laws on parameter grids
+    for &(mu, s) in &[(0.0, 1.0), (2.5, 3.0), (-100.0, 0.25)] {
+        let d = Normal::new(mu, s);
+        let pts: Vec<f64> = (-8..=8).map(|k| mu + s * k as f64 * 0.7).collect();
+        check_cont(&Cont { name: "Normal", params: format!("Normal({}, {})", mu, s), pdf: Box::new(move |x| d.pdf(x)),
+            refpdf: Box::new(move |x| (-(x - mu) * (x - mu) / (2. * s * s)).exp() / (s * (2. * pi).sqrt())), mean: d.mean(), var: d.var(), lo: mu - 12. * s, hi: mu + 12. * s,
+            tmean: Some(mu), tvar: Some(s * s), pts: pts.clone(), outside: vec![] }, out);
+        for &x in &pts {
+            if !close(d.ln_pdf(x), d.pdf(x).ln(), 1e-9) { fail(out, "Normal::ln_pdf", "C02.ln_pdf", format!("Normal({}, {}) x={}", mu, s, x), format!("{}", d.ln_pdf(x)), format!("{}", d.pdf(x).ln())); }
+            let integral = simpson(&|t| d.pdf(t), mu - 12. * s, x, 4000);
+            if (d.cdf(x) - integral).abs() > 1e-6 { fail(out, "Normal::cdf", "C02.cdf", format!("Normal({}, {}) x={}", mu, s, x), format!("{}", d.cdf(x)), format!("{}", integral)); }
+        }
+    }
+    for &(a, b) in &[(0.5, 1.0), (1.0, 2.0), (3.0, 0.5), (7.5, 4.0)] {
+        let d = Gamma::new(a, b);
+        check_cont(&Cont { name: "Gamma", params: format!("Gamma({}, {})", a, b), pdf: Box::new(move |x| d.pdf(x)),
+            refpdf: Box::new(move |x| (a * b.ln() - lgamma(a) + (a - 1.) * x.ln() - b * x).exp()), mean: d.mean(), var: d.var(), lo: 0., hi: 0.,
+            tmean: Some(a / b), tvar: Some(a / (b * b)), pts: vec![0.1, 0.5, 1.0, 2.5, 7.0, 20.0], outside: vec![-1.0, -0.001, 0.0] }, out);
+    }
+    for &(a, b) in &[(0.5, 0.5), (1.0, 1.0), (2.0, 5.0), (4.5, 1.5)] {
+        let d = Beta::new(a, b);
+        check_cont(&Cont { name: "Beta", params: format!("Beta({}, {})", a, b), pdf: Box::new(move |x| d.pdf(x)),
+            refpdf: Box::new(move |x| ((a - 1.) * x.ln() + (b - 1.) * (1. - x).ln() - (lgamma(a) + lgamma(b) - lgamma(a + b))).exp()), mean: d.mean(), var: d.var(), lo: 0., hi: 1.,
+            tmean: Some(a / (a + b)), tvar: Some(a * b / ((a + b) * (a + b) * (a + b + 1.))), pts: vec![0.05, 0.3, 0.5, 0.9], outside: vec![-0.5, 1.5, -1e-9] }, out);
+    }
+    for &k in &[1usize, 2, 3, 10, 50] {
+        let d = ChiSquared::new(k);
+        let h = k as f64 / 2.;
+        check_cont(&Cont { name: "ChiSquared", params: format!("ChiSquared({})", k), pdf: Box::new(move |x| d.pdf(x)),
+            refpdf: Box::new(move |x| (-(h * 2f64.ln()) - lgamma(h) + (h - 1.) * x.ln() - x / 2.).exp()), mean: d.mean(), var: d.var(), lo: 0., hi: 0.,
+            tmean: Some(k as f64), tvar: Some(2. * k as f64), pts: vec![0.1, 1.0, 3.0, 12.0, 60.0], outside: vec![-1.0, -0.01] }, out);
+        if k == 2 { let v = d.pdf(0.); if !close(v, 0.5, 1e-12) { fail(out, "ChiSquared::pdf", "C02.pdf.boundary", "ChiSquared(2) x=0".into(), format!("{}", v), "0.5".into()); } }
+    }
+    for &nu in &[1.0, 2.5, 5.0, 30.0] {
+        let d = T::new(nu);
+        check_cont(&Cont { name: "T", params: format!("T({})", nu), pdf: Box::new(move |x| d.pdf(x)),
+            refpdf: Box::new(move |x| (lgamma((nu + 1.) / 2.) - lgamma(nu / 2.) - 0.5 * (nu * pi).ln() - (nu + 1.) / 2. * (1. + x * x / nu).ln()).exp()), mean: d.mean(), var: d.var(), lo: 0., hi: 0.,
+            tmean: if nu > 1. { Some(0.) } else { None }, tvar: if nu > 2. { Some(nu / (nu - 2.)) } else { None }, pts: vec![-4.0, -1.0, 0.0, 0.5, 3.0], outside: vec![] }, out);
+    }
+    for &(a, m) in &[(0.5, 1.0), (1.5, 2.0), (3.0, 1.0), (5.0, 0.5)] {
+        let d = Pareto::new(a, m);
+        check_cont(&Cont { name: "Pareto", params: format!("Pareto({}, {})", a, m), pdf: Box::new(move |x| d.pdf(x)),
+            refpdf: Box::new(move |x| a * m.powf(a) / x.powf(a + 1.)), mean: d.mean(), var: d.var(), lo: 0., hi: 0.,
+            tmean: if a > 1. { Some(a * m / (a - 1.)) } else { None }, tvar: if a > 2. { Some(m * m * a / ((a - 1.) * (a - 1.) * (a - 2.))) } else { None },
+            pts: vec![m, m * 1.5, m * 4., m * 50.], outside: vec![m * 0.5, 0.0, -1.0] }, out);
+    }
+    for &(mu, b) in &[(0.0, 1.0), (3.0, 2.5), (-2.0, 0.3)] {
+        let d = Gumbel::new(mu, b);
+        check_cont(&Cont { name: "Gumbel", params: format!("Gumbel({}, {})", mu, b), pdf: Box::new(move |x| d.pdf(x)),
+            refpdf: Box::new(move |x| { let z = (x - mu) / b; (-(z + (-z).exp())).exp() / b }), mean: d.mean(), var: d.var(), lo: 0., hi: 0.,
+            tmean: Some(mu + b * 0.5772156649015329), tvar: Some(pi * pi / 6. * b * b), pts: vec![mu - 2. * b, mu, mu + b, mu + 5. * b], outside: vec![] }, out);
+    }
+    for &l in &[0.001, 0.5, 1.0, 30.0] {
+        let d = Exponential::new(l);
+        check_cont(&Cont { name: "Exponential", params: format!("Exponential({})", l), pdf: Box::new(move |x| d.pdf(x)),
+            refpdf: Box::new(move |x| l * (-l * x).exp()), mean: d.mean(), var: d.var(), lo: 0., hi: 0.,
+            tmean: Some(1. / l), tvar: Some(1. / (l * l)), pts: vec![0.0, 0.1 / l, 1. / l, 5. / l], outside: vec![-1e-9, -3.0] }, out);
+    }
+    for &(a, b) in &[(0.0, 1.0), (-3.0, 5.0), (2.0, 2.5)] {
+        let d = Uniform::new(a, b);
+        check_cont(&Cont { name: "Uniform", params: format!("Uniform({}, {})", a, b), pdf: Box::new(move |x| d.pdf(x)),
+            refpdf: Box::new(move |_x| 1. / (b - a)), mean: d.mean(), var: d.var(), lo: a, hi: b,
+            tmean: Some((a + b) / 2.), tvar: Some((b - a) * (b - a) / 12.), pts: vec![a, (a + b) / 2., b], outside: vec![a - 0.1, b + 0.1] }, out);
+    }
+    // ---------------- discrete laws: pmf vs formula, support, total mass, moments of the pmf
+    for &p in &[0.0, 0.3, 1.0] {
+        let d = Bernoulli::new(p);
+        for k in -2..=3i64 { let w = if k == 0 { 1. - p } else if k == 1 { p } else { 0. };
+            match catch(|| d.pmf(k)) { None => fail(out, "Bernoulli::pmf", "C02.pmf.support", format!("p={} k={}", p, k), "panic".into(), format!("{}", w)), Some(g) => if !close(g, w, 1e-15) { fail(out, "Bernoulli::pmf", "C02.pmf.formula", format!("p={} k={}", p, k), format!("{}", g), format!("{}", w)) } } }
+        if !close(d.mean(), p, 1e-15) || !close(d.var(), p * (1. - p), 1e-15) { fail(out, "Bernoulli::mean/var", "C02.moments", format!("p={}", p), format!("{} {}", d.mean(), d.var()), format!("{} {}", p, p * (1. - p))); }
+    }
+    for &(a, b) in &[(0i64, 1i64), (-3, 4), (5, 5), (2, 11)] {
+        let d = DiscreteUniform::new(a, b);
+        let n = (b - a + 1) as f64;
+        for k in (a - 2)..=(b + 2) { let w = if k >= a && k <= b { 1. / n } else { 0. };
+            match catch(|| d.pmf(k)) { None => fail(out, "DiscreteUniform::pmf", "C02.pmf.support", format!("({},{}) k={}", a, b, k), "panic".into(), format!("{}", w)), Some(g) => if !close(g, w, 1e-14) { fail(out, "DiscreteUniform::pmf", "C02.pmf.formula", format!("({},{}) k={}", a, b, k), format!("{}", g), format!("{}", w)) } } }
+        if !close(d.mean(), (a + b) as f64 / 2., 1e-14) { fail(out, "DiscreteUniform::mean", "C02.mean", format!("({},{})", a, b), format!("{}", d.mean()), format!("{}", (a + b) as f64 / 2.)); }
+        if !close(d.var(), (n * n - 1.) / 12., 1e-14) { fail(out, "DiscreteUniform::var", "C02.var", format!("({},{})", a, b), format!("{}", d.var()), format!("{}", (n * n - 1.) / 12.)); }
+    }
+    for &l in &[0.5, 2.0, 9.5, 40.0] {
+        let d = Poisson::new(l);
+        let mut tot = 0.; let mut m1 = 0.; let mut m2 = 0.;
+        for k in -2..150i64 {
+            let w = if k < 0 { 0. } else { (k as f64 * l.ln() - l - lgamma(k as f64 + 1.)).exp() };
+            match catch(|| d.pmf(k)) { None => fail(out, "Poisson::pmf", "C02.pmf.support", format!("lambda={} k={}", l, k), "panic".into(), format!("{}", w)),
+                Some(g) => { if !close(g, w, 1e-8) && (g - w).abs() > 1e-14 { fail(out, "Poisson::pmf", "C02.pmf.formula", format!("lambda={} k={}", l, k), format!("{}", g), format!("{}", w)); } tot += g; m1 += g * k as f64; m2 += g * (k * k) as f64; } }
+        }
+        if !close(tot, 1., 1e-8) { fail(out, "Poisson::pmf", "C02.mass", format!("lambda={}", l), format!("{}", tot), "1".into()); }
+        if !close(d.mean(), m1, 1e-7) || !close(d.var(), m2 - m1 * m1, 1e-6) { fail(out, "Poisson::mean/var", "C02.moments", format!("lambda={}", l), format!("{} {}", d.mean(), d.var()), format!("{} {}", m1, m2 - m1 * m1)); }
+    }
+    for &(n, p) in &[(1u64, 0.5), (10, 0.3), (40, 0.9), (25, 0.0), (7, 1.0)] {
+        let d = Binomial::new(n, p);
+        let mut tot = 0.; let mut m1 = 0.; let mut m2 = 0.;
+        for k in -2..=(n as i64 + 2) {
+            let w = if k < 0 || k > n as i64 { 0. } else { let kf = k as f64; let nf = n as f64;
+                let lc = lgamma(nf + 1.) - lgamma(kf + 1.) - lgamma(nf - kf + 1.);
+                lc.exp() * p.powi(k as i32) * (1. - p).powi((n as i64 - k) as i32) };
+            match catch(|| d.pmf(k)) { None => fail(out, "Binomial::pmf", "C02.pmf.support", format!("n={} p={} k={}", n, p, k), "panic".into(), format!("{}", w)),
+                Some(g) => { if !close(g, w, 1e-9) { fail(out, "Binomial::pmf", "C02.pmf.formula", format!("n={} p={} k={}", n, p, k), format!("{}", g), format!("{}", w)); } tot += g; m1 += g * k as f64; m2 += g * (k * k) as f64; } }
+        }
+        if !close(tot, 1., 1e-9) { fail(out, "Binomial::pmf", "C02.mass", format!("n={} p={}", n, p), format!("{}", tot), "1".into()); }
+        if !close(d.mean(), n as f64 * p, 1e-12) || !close(d.var(), n as f64 * p * (1. - p), 1e-12) { fail(out, "Binomial::mean/var", "C02.moments", format!("n={} p={}", n, p), format!("{} {}", d.mean(), d.var()), format!("{} {}", n as f64 * p, n as f64 * p * (1. - p))); }
+    }
+    // ---------------- multivariate normal with a diagonal covariance = product of univariate normals
+    for k in 1..=5usize {
+        let mean: Vec<f64> = (0..k).map(|i| i as f64 - 1.).collect();
+        let sd: Vec<f64> = (0..k).map(|i| 0.5 + 0.4 * i as f64).collect();
+        let mut cov = vec![0.; k * k]; for i in 0..k { cov[i * k + i] = sd[i] * sd[i]; }
+        let r = catch(|| { let d = MVN::new(mean.clone(), Matrix::new(cov.clone(), k as i32, k as i32)); let x: Vec<f64> = (0..k).map(|i| mean[i] + 0.3 * (i as f64 + 1.)).collect(); ((&d).pdf(&x), (&d).ln_pdf(&x), x) });
+        if let Some((p, lp, x)) = r {
+            let mut w = 1.; for i in 0..k { w *= (-(x[i] - mean[i]) * (x[i] - mean[i]) / (2. * sd[i] * sd[i])).exp() / (sd[i] * (2. * pi).sqrt()); }
+            if !close(p, w, 1e-9) { fail(out, "MVN::pdf", "C02.mvn.pdf", format!("dimension {} diagonal covariance", k), format!("{}", p), format!("{}", w)); }
+            if !close(lp, w.ln(), 1e-9) { fail(out, "MVN::ln_pdf", "C02.mvn.ln_pdf", format!("dimension {}", k), format!("{}", lp), format!("{}", w.ln())); }
+        }
+    }
+    // ---------------- C18: histories of setters / updates against a freshly constructed twin
+    c18(rng, out);
+}
+
+fn stream<D: Distribution<Output = f64>>(d: &D, seed: u64) -> Vec<f64> { alea::set_seed(seed); (0..12).map(|_| d.sample()).collect() }
+
+macro_rules! twin_check {
+    ($out:expr, $name:expr, $hist:expr, $obj:expr, $fresh:expr, $pts:expr, $dens:ident) => {{
+        let a = &$obj; let b = &$fresh;
+        for &x in $pts.iter() {
+            let (u, v) = (a.$dens(x), b.$dens(x));
+            if !same(u, v) { fail($out, $name, "C18.fresh.density", $hist.clone(), format!("{} at {:?}", u, x), format!("{}", v)); }
+        }
+        if !same(a.mean(), b.mean()) || !same(a.var(), b.var()) { fail($out, $name, "C18.fresh.moments", $hist.clone(), format!("{} {}", a.mean(), a.var()), format!("{} {}", b.mean(), b.var())); }
+        let sa = catch(|| stream(a, 77)); let sb = catch(|| stream(b, 77));
+        match (sa, sb) { (Some(x), Some(y)) => if !same_vec(&x, &y) { fail($out, $name, "C18.fresh.stream", $hist.clone(), format!("{:?}", &x[..4]), format!("{:?}", &y[..4])) },
+            (None, Some(_)) | (Some(_), None) => fail($out, $name, "C18.fresh.stream", $hist.clone(), "panic mismatch".into(), "same stream".into()), _ => {} }
+    }};
+}
+
+fn c18(rng: &mut Rng, out: &mut Fails) {
+    let pts = [-1.5, 0.0, 0.4, 1.0, 2.5, 7.0];
+    let ipts = [-1i64, 0, 1, 2, 5, 9];
+    for hist in 0..40 {
+        let h = format!("history #{}", hist);
+        // Normal
+        { let (m1, s1, m2, s2) = (rng.range(-3., 3.), rng.range(0.1, 3.), rng.range(-30., 30.), rng.range(0.1, 9.));
+          let mut d = Normal::new(m1, s1); d.set_mu(m2); d.set_sigma(s2);
+          twin_check!(out, "Normal::set_mu/set_sigma", format!("{} Normal({},{}).set_mu({}).set_sigma({})", h, m1, s1, m2, s2), d, Normal::new(m2, s2), pts, pdf);
+          let mut e = Normal::new(m1, s1); e.update(&[m2, s2]);
+          twin_check!(out, "Normal::update", format!("{} Normal({},{}).update([{},{}])", h, m1, s1, m2, s2), e, Normal::new(m2, s2), pts, pdf);
+          let mut f = Normal::new(m1, s1); if catch(|| { f.set_sigma(-1.0); }).is_some() { fail(out, "Normal::set_sigma", "C18.valid", "set_sigma(-1)".into(), "accepted".into(), "panic".into()); }
+          twin_check!(out, "Normal::set_sigma", format!("{} after rejected set_sigma(-1)", h), f, Normal::new(m1, s1), pts, pdf); }
+        // Uniform: new bounds on either side of the old interval
+        { let (a1, w1) = (rng.range(-5., 5.), rng.range(0.1, 3.)); let (a2, w2) = (a1 + rng.range(-20., 20.), rng.range(0.1, 3.));
+          let mut d = Uniform::new(a1, a1 + w1);
+          match catch(|| { d.update(&[a2, a2 + w2]); }) { None => fail(out, "Uniform::update", "C18.no_valid_input_rejected", format!("{} Uniform({},{}).update([{},{}])", h, a1, a1 + w1, a2, a2 + w2), "panic".into(), "accepted".into()),
+              Some(_) => twin_check!(out, "Uniform::update", format!("{} Uniform({},{}).update([{},{}])", h, a1, a1 + w1, a2, a2 + w2), d, Uniform::new(a2, a2 + w2), pts, pdf) }
+          let mut e = Uniform::new(a1, a1 + w1); if catch(|| { e.update(&[3.0, 1.0]); }).is_some() { fail(out, "Uniform::update", "C18.valid", "update([3,1])".into(), "accepted".into(), "panic".into()); }
+          let mut f = Uniform::new(0., 1.); f.set_upper(5.); f.set_lower(2.);
+          twin_check!(out, "Uniform::set_lower/set_upper", format!("{} Uniform(0,1).set_upper(5).set_lower(2)", h), f, Uniform::new(2., 5.), pts, pdf); }
+        // Gamma / Beta / ChiSquared (cached samplers)
+        { let (a1, b1, a2, b2) = (rng.range(0.6, 5.), rng.range(0.3, 4.), rng.range(0.6, 9.), rng.range(0.3, 4.));
+          let mut d = Gamma::new(a1, b1); d.set_alpha(a2); d.set_beta(b2);
+          twin_check!(out, "Gamma::set_alpha/set_beta", format!("{} Gamma({},{}) -> ({},{})", h, a1, b1, a2, b2), d, Gamma::new(a2, b2), pts, pdf);
+          let mut e = Gamma::new(a1, b1); e.update(&[a2, b2]);
+          twin_check!(out, "Gamma::update", format!("{} Gamma({},{}).update([{},{}])", h, a1, b1, a2, b2), e, Gamma::new(a2, b2), pts, pdf);
+          let mut g = Beta::new(a1, b1); g.set_alpha(a2); g.set_beta(b2);
+          twin_check!(out, "Beta::set_alpha/set_beta", format!("{} Beta({},{}) -> ({},{})", h, a1, b1, a2, b2), g, Beta::new(a2, b2), pts, pdf);
+          let mut g2 = Beta::new(a1, b1); g2.update(&[a2, b2]);
+          twin_check!(out, "Beta::update", format!("{} Beta({},{}).update([{},{}])", h, a1, b1, a2, b2), g2, Beta::new(a2, b2), pts, pdf);
+          let mut g3 = Beta::new(a1, b1); let rej = catch(|| { g3.set_alpha(-1.0); }).is_none() ; if !rej { fail(out, "Beta::set_alpha", "C18.valid", "set_alpha(-1)".into(), "accepted".into(), "panic".into()); }
+          twin_check!(out, "Beta::set_alpha", format!("{} Beta({},{}) after rejected set_alpha(-1)", h, a1, b1), g3, Beta::new(a1, b1), pts, pdf);
+          let mut g4 = Beta::new(a1, b1); let _ = catch(|| { g4.set_beta(0.0); });
+          twin_check!(out, "Beta::set_beta", format!("{} Beta({},{}) after rejected set_beta(0)", h, a1, b1), g4, Beta::new(a1, b1), pts, pdf);
+          let (k1, k2) = (1 + rng.below(6), 2 + rng.below(40));
+          let mut c = ChiSquared::new(k1); c.set_dof(k2);
+          twin_check!(out, "ChiSquared::set_dof", format!("{} ChiSquared({}).set_dof({})", h, k1, k2), c, ChiSquared::new(k2), pts, pdf);
+          let mut c2 = ChiSquared::new(k1); c2.update(&[k2 as f64]);
+          twin_check!(out, "ChiSquared::update", format!("{} ChiSquared({}).update([{}])", h, k1, k2), c2, ChiSquared::new(k2), pts, pdf); }
+        // Exponential / Gumbel / Pareto / T
+        { let (l1, l2) = (rng.range(0.1, 5.), rng.range(0.1, 50.));
+          let mut d = Exponential::new(l1); d.set_lambda(l2);
+          twin_check!(out, "Exponential::set_lambda", format!("{} Exponential({}).set_lambda({})", h, l1, l2), d, Exponential::new(l2), pts, pdf);
+          let mut g = Gumbel::new(l1, l2); g.set_mu(-l2); g.set_beta(l1);
+          twin_check!(out, "Gumbel::set_mu/set_beta", format!("{} Gumbel", h), g, Gumbel::new(-l2, l1), pts, pdf);
+          let mut p = Pareto::new(l1, l2); p.update(&[l2, l1]);
+          twin_check!(out, "Pareto::update", format!("{} Pareto({},{}).update([{},{}])", h, l1, l2, l2, l1), p, Pareto::new(l2, l1), pts, pdf);
+          let mut t = T::new(l1 + 2.); t.set_dof(l2 + 2.);
+          twin_check!(out, "T::set_dof", format!("{} T({}).set_dof({})", h, l1 + 2., l2 + 2.), t, T::new(l2 + 2.), pts, pdf); }
+        // discrete
+        { let (l1, l2) = (rng.range(0.5, 30.), rng.range(0.5, 30.));
+          let mut d = Poisson::new(l1); d.set_lambda(l2);
+          twin_check!(out, "Poisson::set_lambda", format!("{} Poisson({}).set_lambda({})", h, l1, l2), d, Poisson::new(l2), ipts, pmf);
+          let mut d2 = Poisson::new(l1); d2.update(&[l2]);
+          twin_check!(out, "Poisson::update", format!("{} Poisson({}).update([{}])", h, l1, l2), d2, Poisson::new(l2), ipts, pmf);
+          let (a1, a2) = (rng.below(5) as i64, 10 + rng.below(5) as i64);
+          let mut u = DiscreteUniform::new(a1, a1 + 2);
+          match catch(|| { u.update(&[a2 as f64, (a2 + 3) as f64]); }) { None => fail(out, "DiscreteUniform::update", "C18.no_valid_input_rejected", format!("{} DiscreteUniform({},{}).update([{},{}])", h, a1, a1 + 2, a2, a2 + 3), "panic".into(), "accepted".into()),
+              Some(_) => twin_check!(out, "DiscreteUniform::update", format!("{} DiscreteUniform update", h), u, DiscreteUniform::new(a2, a2 + 3), ipts, pmf) }
+          let (p1, p2) = (rng.unit(), rng.unit());
+          let mut b = Bernoulli::new(p1); b.set_p(p2);
+          twin_check!(out, "Bernoulli::set_p", format!("{} Bernoulli({}).set_p({})", h, p1, p2), b, Bernoulli::new(p2), ipts, pmf);
+          let (n1, n2) = (1 + rng.below(20) as u64, 1 + rng.below(60) as u64);
+          let mut bi = Binomial::new(n1, p1); bi.set_n(n2); bi.set_p(p2);
+          twin_check!(out, "Binomial::set_n/set_p", format!("{} Binomial({},{}) -> ({},{})", h, n1, p1, n2, p2), bi, Binomial::new(n2, p2), [0i64, 1, 2, 3], pmf); }
+        if out.len() > 6 { return; }
+    }
+}
